@@ -28,7 +28,7 @@ PROPS = {
     'C02': dict(
         level='model_checking', design_ref='5/C02', oracle='C02',
         technique='explicit-state exploration of the real back-ends + reference-model conformance on the exit/action/entry order',
-        quick=[S('flat'), S('hier2'), S('hier3'), S('entry'), S('twosub')],
+        quick=[S('flat'), S('hier2'), S('hier3'), S('entry'), S('twosub'), S('histS', cfgs=['b', 'bc', 'b11', 'm'])],
         thorough=[S('flat'), S('hier2'), S('hier3'), S('entry'), S('histN'), S('histA'), S('histS'), S('ortho'), S('wide'), S('twosub')],
         rule='every edge of the state graph from every reachable configuration under every guard valuation; '
              'non-trivial when an exit, action or entry ran',
